@@ -142,6 +142,17 @@ POOLS = {
 }
 
 
+# Valid UTF-8 that a normalising / case-folding / stripping reader or writer would silently change:
+# not in NFC (decomposed accents, Hangul jamo), singletons that NFC replaces (Angstrom, Ohm), compatibility characters that only
+# NFKC/NFKD touch (ligature fi, superscript two, fullwidth A), a string whose NFC / NFD / NFKC / NFKD are four different strings,
+# case traps (dotted capital I, sharp s, titlecase digraph), and whitespace / invisible characters at the edges
+TEXT_TRAPS = ['Cle\u0301', '\u212b', '\u1100\u1161', '\u1e9b\u0323', '\ufb01le', 'e\u0301\u0300', '\u2126', 'x\u00b2', '\uff21BC',
+              'ABC', 'Name', '\u0130stanbul', 'stra\u00dfe', '\u01c5',
+              'ab ', ' ab', 'a\tb', 'a\nb\n', 'ab\x00', '\ufeffab', '\u00a0', 'a\u200bb', '  ', '\u3000x']
+POOLS['PText'] = [x for pair in zip(POOLS['PText'], TEXT_TRAPS + [None] * len(POOLS['PText'])) for x in pair if x is not None] + \
+    TEXT_TRAPS[len(POOLS['PText']):]
+
+
 class Gen:
     def __init__(self, schema, rng, max_depth=6):
         self.s = schema
